@@ -40,12 +40,29 @@ class Impl:
     def instance(self, W, H, items):
         """the instance, or None if the constructor rejects it (ValueError/TypeError), or the name of any
         other exception (ZeroDivisionError, ...) - which an accepted instance must never see"""
+        import signal
+
+        class _Timeout(Exception):
+            pass
+
+        def _alarm(*_):
+            raise _Timeout
+
+        # every constructor call of these streams takes milliseconds on the modelled code; a changed lower-bound loop
+        # (e.g. iterating over the LONGER bin side of a 2 x 10^12 bin) must not hang the check
+        old = signal.signal(signal.SIGALRM, _alarm)
+        signal.setitimer(signal.ITIMER_REAL, 15.0)
         try:
             return self.Instance("i", int(W), int(H), [list(map(int, r)) for r in items])
         except (ValueError, TypeError):
             return None
+        except _Timeout:
+            return "Timeout(15s)"
         except Exception as e:  # noqa: BLE001 - reported as a finding with the failing input
             return type(e).__name__
+        finally:
+            signal.setitimer(signal.ITIMER_REAL, 0)
+            signal.signal(signal.SIGALRM, old)
 
     def lb_line(self, W, H, items, verbose):
         """canonical implementation answer to `lb` / `lbv` for an instance the constructor accepts"""
